@@ -238,6 +238,8 @@ def mean(t, dim=None, marginals=None, keepdim=False):
         pdfcores = [torch.ones(1, sh, 1) for sh in t.shape]
         if dim is None:
             dim = range(t.dim())
+        if not hasattr(dim, "__len__"):
+            dim = [dim]
         for d, marg in zip(dim, marginals):
             pdfcores[d] = marg[None, :, None] / marg.sum()
         pdf = tn.Tensor(pdfcores)
